@@ -271,4 +271,37 @@ def run(ctx):
                 run.finding(Finding(R4, f.id, "the child index is written on the strength of a current_child_index value read in an earlier wallet-lock section: keys handed out in between are handed out again", site=c.site_of(f, b)))
     if n4 == 0:
         run.error("C20.R4: no save_child_index decided on current_child_index found in a lock-managing function (anchor missing)")
+    R5 = "C20.R5"
+    run.rule(R5, "node unreachable in the middle of a refresh: a node call that fails gives no answer - from its error edge no wallet record is written and no result set is extended in that function (a failed kernel look-up is not 'kernel not on chain')", floor=6)
+    from ..callgraph import NC, non_production as _np5
+    GROW = ("*::insert", "*::push", "*::extend", "*::push_back")
+    REFRESH5 = {c.LW + "api_impl::owner::" + n_ for n_ in ("update_wallet_state", "update_outputs", "update_txs_via_kernel", "scan", "scan_rewind_hash")}
+    n5 = 0
+    for fid, f in sorted(db.fns.items()):
+        if _np5(fid) or not fid.startswith(c.LW):
+            continue
+        # the refresh / scan machinery (owner::node_height falls back to a read-only query by design)
+        if not (fid.startswith(c.LW + "internal::updater::") or fid.startswith(c.LW + "internal::scan::") or fid.split("::{")[0] in REFRESH5):
+            continue
+        eff5 = None
+        for b, t in f.calls():
+            if not (t.get("f") or "").startswith(NC) or not (t.get("dty") or "").startswith("core::result::Result<"):
+                continue
+            g = cfg.call_guard(f, b)
+            if not g.fail:
+                continue
+            n5 += 1
+            if eff5 is None:
+                eff5 = ctx.eff.effect_blocks(f)
+            # a loop may bring the error path of one iteration back to later, healthy iterations: stop at the call
+            after = cfg.reach(f, starts=[d for (_s, d) in g.fail], cut_edges=g.ok, cut_nodes=frozenset({b}))
+            # only the blocks that are NOT also reachable without the failure count (what the failure adds is nothing;
+            # what matters is what still runs): writes / growth that run after the failed call
+            wr = sorted(x for x in after if x in eff5)
+            gr = sorted(x for x in after if f.bbs[x]["t"]["k"] == "call" and any(cfg.match_name(f.bbs[x]["t"].get("f") or "", p_) for p_ in GROW) and not f.bbs[x]["t"].get("mac"))
+            held = not wr and not gr
+            run.instance(R5, {"fn": pp.short(fid), "node call": pp.short(t["f"]).split("::")[-1], "site": c.site_of(f, b), "writes after the failure": len(wr), "result sets extended after the failure": len(gr)}, held=held)
+            if not held:
+                x = (wr or gr)[0]
+                run.finding(Finding(R5, fid, "after a failed %s the function goes on to %s: a node that drops out in the middle of a refresh is taken for an answer" % (pp.short(t["f"]).split("::")[-1], "write wallet records" if wr else "extend its result (" + pp.short(f.bbs[x]["t"].get("f") or "").split("::")[-1] + ")"), site=c.site_of(f, x)))
     run.not_decided += ["serialisability of every interleaving as such (R1 is the necessary structural condition under the single wallet mutex; R2 is sufficient for deadlock freedom only for the enumerated mutexes)", "locks taken inside dependencies (grin_core's own use of the static secp instance)"]
